@@ -1357,7 +1357,16 @@ func (a *Agent) addCandidate(ctx context.Context, cand Candidate, candidateConn 
 		return err
 	}
 
-	return a.loop.Run(ctx, func(context.Context) {
+	var taskErr error
+	if err := a.loop.Run(ctx, func(context.Context) {
+		// The cycle may have been canceled (Restart) after the check above and before
+		// the task was handed off: do not publish its candidate into the new generation.
+		if err := ctx.Err(); err != nil {
+			taskErr = err
+
+			return
+		}
+
 		set := a.localCandidates[cand.NetworkType()]
 		for _, candidate := range set {
 			if candidate.Equal(cand) {
@@ -1390,7 +1399,11 @@ func (a *Agent) addCandidate(ctx context.Context, cand Candidate, candidateConn 
 		if !cand.filterForLocationTracking() {
 			a.candidateNotifier.EnqueueCandidate(cand)
 		}
-	})
+	}); err != nil {
+		return err
+	}
+
+	return taskErr
 }
 
 func (a *Agent) setCandidateExtensions(cand Candidate) {
